@@ -29,7 +29,11 @@ def main() -> int:
     run = core.Run(a.pid.upper(), a.tier, seed)
     if a.replay:
         data = json.load(open(a.replay))
-        mod.replay(run, data)
+        if not isinstance(data.get('detail'), dict):
+            print('replay file carries no structured case (', data.get(
+                'what', '')[:200], ')')
+        else:
+            mod.replay(run, data)
     else:
         mod.main(run)
     return run.finish()
